@@ -151,3 +151,92 @@ def initialize_port_lines(port, support_files_ns, fct):
             else:
                 handlers.append('port.in.' + e.name + ' = std::ref(' + port.accessor_target + '().in.' + e.name + ');')
     return head + (handlers + [''] if handlers else []) + ['return port;']
+
+
+# --------------------------------------------------------------- C02 C10 C12: the accessor of one exposed port
+from dznpy.ast import PortDirection
+from dznpy.adv_shell.types import RuntimeSemantics
+from specs.cpp_gen import type_text, param_decl, member_variable_text
+
+
+def cpp_fqn(items):
+    return '::' + '::'.join(items)
+
+
+def portitf_view(r, dzn, scope):
+    """what the rest of the generator reads from a CppPortItf, as text (rendering itself: C20)"""
+    f = r.accessor_fn
+    return (r.dzn_port_itf is dzn, f.scope is scope, type_text(r.type), type_text(f.return_type), f.name,
+            [param_decl(p) for p in f.params], f.contents, f.prefix.value, f.cav, f.override, f.initialization,
+            r.accessor_target, member_variable_text(r.member_var) if r.member_var is not None else None)
+
+
+def portitf_expectation(dzn, scope, sfns, enc, sfs):
+    """single-threaded: the wrapped component's own port in the Sts strict-port type, no boundary member;
+    multi-threaded: a boundary member m_pp<Port> / m_rp<Port> of the interface type handed out in the Mts type;
+    multi-client: the boundary member is a selector and the accessor takes the client identifier"""
+    name = dzn.port.name
+    cap = name[0].upper() + name[1:]
+    word = 'Provides' if dzn.port.direction == PortDirection.PROVIDES else 'Requires'
+    itf = cpp_fqn(dzn.interface.fqn.items)
+    common = (None, '', False, '')
+    if dzn.semantics == RuntimeSemantics.STS:
+        target = enc.member_var.name + '.' + name
+        return (True, True, itf, cpp_fqn(sfns.items + ['Sts']) + '<' + itf + '>', word + cap, [],
+                'return {' + target + '};') + common + (target, None)
+    boundary = ('m_pp' if dzn.port.direction == PortDirection.PROVIDES else 'm_rp') + cap
+    if dzn.multiclient is None:
+        return (True, True, itf, cpp_fqn(sfns.items + ['Mts']) + '<' + itf + '>', word + cap, [],
+                'return {' + boundary + '};') + common + (boundary, itf + ' ' + boundary + ';')
+    return (True, True, itf, cpp_fqn(sfns.items + ['Mts']) + '<' + itf + '>', word + 'MultiClient' + cap,
+            ['const ' + cpp_fqn(sfs.multi_client_selector.namespace.items + ['ClientIdentifier']) + '& identifier'],
+            'return {' + boundary + '.Index(identifier).dznPort};') + common + \
+           (boundary, cpp_fqn(sfns.items + ['MultiClientSelector']) + '<' + itf + '> ' + boundary + ';')
+
+
+# ------------------------------------------------------------------------------------- C09: facilities by origin
+from dznpy.adv_shell.common import FacilitiesOrigin
+
+
+def function_view(f, scope):
+    return (f.scope is scope, f.prefix.value, type_text(f.return_type), f.name, [param_decl(p) for p in f.params], f.cav,
+            f.override, f.initialization)
+
+
+def facilities_view(fac, scope):
+    acc = fac.locator_accessor_fn
+    return (fac.origin,
+            member_variable_text(fac.dispatcher),
+            member_variable_text(fac.runtime) if fac.runtime is not None else None,
+            member_variable_text(fac.locator) if fac.locator is not None else None,
+            function_view(acc, scope) + (acc.contents,) if acc is not None else None)
+
+
+def facilities_expectation(origin, scope):
+    """'create': the shell owns dispatcher, runtime and locator (members by value) and hands out its locator;
+    'import': only a reference to the user's dispatcher, no locator accessor"""
+    if origin == FacilitiesOrigin.CREATE:
+        return (origin, 'dzn::pump m_dispatcher;', 'dzn::runtime m_runtime;', 'dzn::locator m_locator;',
+                (True, None, 'dzn::locator&', 'Locator', [], '', False, '', 'return m_locator;'))
+    return (origin, 'dzn::pump& m_dispatcher;', None, None, None)
+
+
+def facilities_check_view(f, scope):
+    return function_view(f, scope) + (statements(f.contents.lines),)
+
+
+def facilities_check_expectation(scope, origin):
+    """'create' refuses a prototype locator that already carries a dispatcher or a runtime; 'import' refuses a
+    locator in which one of them is missing; otherwise the locator is passed through"""
+    head = (True, 'static', 'const dzn::locator&', 'FacilitiesCheck', ['const dzn::locator& locator'], '', False, '')
+    if origin == FacilitiesOrigin.CREATE:
+        return head + (['if (locator.try_get<dzn::pump>() != nullptr) throw std::runtime_error("' + scope.name +
+                        ': Overlapping dispatcher found (dzn::pump)");',
+                        'if (locator.try_get<dzn::runtime>() != nullptr) throw std::runtime_error("' + scope.name +
+                        ': Overlapping Dezyne runtime found (dzn::runtime)");',
+                        'return locator;'],)
+    return head + (['if (locator.try_get<dzn::pump>() == nullptr) throw std::runtime_error("' + scope.name +
+                    ': Dispatcher missing (dzn::pump)");',
+                    'if (locator.try_get<dzn::runtime>() == nullptr) throw std::runtime_error("' + scope.name +
+                    ': Dezyne runtime missing (dzn::runtime)");',
+                    'return locator;'],)
